@@ -59,6 +59,10 @@ pub enum AOp {
     SubNextRef(u8),
     CloneOwner,
     DropOwner,
+    /// clone / clone_reset / reset a subscriber in whatever state it is (also with a lock request in flight)
+    SubClone(u8),
+    SubCloneReset(u8),
+    SubReset(u8),
 }
 
 #[derive(Clone, Debug, Serialize, Deserialize, PartialEq, Eq, Hash)]
@@ -658,6 +662,30 @@ impl World {
                 let Some(i) = pick(ix, free.len()) else { return Ok(()) };
                 self.poll_stream(free[i], true)?;
             }
+            AOp::SubClone(ix) | AOp::SubCloneReset(ix) | AOp::SubReset(ix) => {
+                // needs only &Sub / &mut Sub without a task or guard borrowing it
+                let free: Vec<usize> = (0..self.subs.len()).filter(|i| !self.subs[*i].busy).collect();
+                let Some(i) = pick(ix, free.len()) else { return Ok(()) };
+                let s = free[i];
+                if matches!(op, AOp::SubReset(_)) {
+                    // reset() while a Stream poll is outstanding is fine too: the next poll decides
+                    if self.subs[s].stream_flag.is_none() {
+                        let sub: &mut Sub = unsafe { &mut *self.subs[s].sub };
+                        sub.reset();
+                        self.subs[s].unseen = true;
+                    }
+                } else if self.subs.len() < 6 {
+                    let sub: &Sub = unsafe { &*self.subs[s].sub };
+                    let reset = matches!(op, AOp::SubCloneReset(_));
+                    let c = if reset { sub.clone_reset() } else { sub.clone() };
+                    if self.subs[s].stream_flag.is_some() {
+                        self.rep.classes.push("subscriber_cloned_with_poll_outstanding");
+                    }
+                    let unseen = reset || self.subs[s].unseen;
+                    let p = Box::into_raw(Box::new(c));
+                    self.subs.push(SubSlot { sub: p, unseen, stream_flag: None, polled_under_write: false, busy: false });
+                }
+            }
             AOp::CloneOwner => {
                 if let Some(o) = self.owner() {
                     if self.owners.len() < 3 {
@@ -789,6 +817,9 @@ pub fn case() -> BoxedStrategy<AsyncCase> {
         2 => ix().prop_map(AOp::SubNextRef),
         1 => Just(AOp::CloneOwner),
         1 => Just(AOp::DropOwner),
+        2 => ix().prop_map(AOp::SubClone),
+        1 => ix().prop_map(AOp::SubCloneReset),
+        1 => ix().prop_map(AOp::SubReset),
     ];
     ((0u8..3, 0u8..3), proptest::collection::vec(op, 0..=30), prop_oneof![2 => Just(0u8), 1 => Just(1u8)])
         .prop_map(|(init, ops, finale)| AsyncCase { init, ops, finale })
